@@ -9,6 +9,16 @@ def J(harness, **kw):
     return d
 
 PROPS = {
+    "C02": {"quick": [J("^vhC02_core_(2x2|3x1)$", preempt=1, races=False, samples=3)], "thorough": [J("^vhC02_core_(2x2|3x1)$", preempt=2, samples=6)],
+            "bounds": {"threads": 3, "preemptions_quick": 1, "preemptions_thorough": 2}, "assumptions": []},
+    "C03": {"quick": [J("^vhC03_(sub_K3|cut_L2)$", samples=4)], "thorough": [J("^vhC03_(sub_K4|cut_L3)$", samples=8)], "bounds": {}, "assumptions": []},
+    "C07": {"quick": [J("^vhC07_.*_L2$", samples=4)], "thorough": [J("^vhC07_.*_L3$", samples=8)], "bounds": {}, "assumptions": []},
+    "C09": {"quick": [J("^vhC09_.*_L2$", samples=4)], "thorough": [J("^vhC09_.*_L3$", samples=8)], "bounds": {}, "assumptions": []},
+    "C12": {"quick": [J("^vhC12_.*_L2$", samples=4)], "thorough": [J("^vhC12_.*_L3$", samples=8)], "bounds": {}, "assumptions": []},
+    "C01": {"quick": [J("^vhC01_.*_L3$", samples=6)], "thorough": [J("^vhC01_.*_L4$", samples=12)],
+            "bounds": {"script_length_quick": 3, "script_length_thorough": 4}, "assumptions": []},
+    "C10": {"quick": [J("^vhC10_seq_.*_K4$", samples=3)], "thorough": [J("^vhC10_seq_.*_K5$", samples=6)],
+            "bounds": {"ops_quick": 4, "ops_thorough": 5, "subscribers": 3}, "assumptions": []},
     "C04": {"quick": [J("^vhC04_ref_L3$", samples=8)], "thorough": [J("^vhC04_ref_L(3|4)$", samples=16)],
             "bounds": {"script_length_quick": 3, "script_length_thorough": 4}, "assumptions": []},
 }
